@@ -152,6 +152,10 @@ class Ref:
             V[v], V[a[1]] = V[a[1]], V[v]
         elif op == "clear" and n == 1:
             V[v] = []
+        elif op in ("removefront", "removeback") and n == 1:
+            if not x:
+                return False
+            del x[0 if op == "removefront" else -1]
         # -- Array
         elif k == "A":
             if op == "append" and n == 2:
@@ -404,6 +408,7 @@ def gen_history(rng, length, kinds=KINDS, keys=6, alias=0.3, grow=0.55):
         gr = rng.random() < grow
         z = rng.random()
         if z < 0.03: op = f"{k}.clear {v}"
+        elif z < 0.045 + (0 if gr else 0.05): op = f"{k}.{rng.choice(['removefront', 'removeback'])} {v}"
         elif z < 0.05: op = f"{k}.new {v}"
         elif z < 0.10 and k not in "PQ": op = f"{k}.assign {v} {w}"
         elif z < 0.13 and k not in "PQ" and w != v: op = f"{k}.copy {v} {w}"
@@ -453,23 +458,23 @@ def gen_history(rng, length, kinds=KINDS, keys=6, alias=0.3, grow=0.55):
 
 
 SMALL = {
-    "A": ["A.append 0 1", "A.append 0 2", "A.appendref 0 0", "A.appendref 0 2", "A.appendarr 0 0", "A.appendarr 0 1", "A.appendptr 0 1 2",
+    "A": ["A.removefront 0", "A.removeback 0", "A.append 0 1", "A.append 0 2", "A.appendref 0 0", "A.appendref 0 2", "A.appendarr 0 0", "A.appendarr 0 1", "A.appendptr 0 1 2",
           "A.resize 0 5 3", "A.resize 0 1 3", "A.resizeref 0 4 0", "A.resizeref 0 9 1", "A.reserve 0 4", "A.reserve 0 9", "A.remove 0 0", "A.removeit 0 1",
           "A.set 0 0 7", "A.clear 0", "A.swap 0 1", "A.assign 0 0", "A.assign 0 1", "A.assign 1 0", "A.copy 1 0", "A.new 0", "A.newcap 0 5"],
-    "L": ["L.append 0 1", "L.append 0 2", "L.prepend 0 3", "L.insert 0 1 4", "L.appendref 0 0", "L.insertref 0 1 1", "L.appendlist 0 0", "L.prependlist 0 0",
+    "L": ["L.removefront 0", "L.removeback 0", "L.append 0 1", "L.append 0 2", "L.prepend 0 3", "L.insert 0 1 4", "L.appendref 0 0", "L.insertref 0 1 1", "L.appendlist 0 0", "L.prependlist 0 0",
           "L.insertlist 0 1 0", "L.appendlist 0 1", "L.insertlist 1 0 0", "L.remove 0 0", "L.remove 0 1", "L.removeval 0 1", "L.removevalref 0 1", "L.set 0 0 7",
           "L.clear 0", "L.swap 0 1", "L.assign 0 0", "L.assign 0 1", "L.assign 1 0", "L.copy 1 0", "L.new 0"],
-    "M": ["M.insert 0 2 1", "M.insert 0 1 2", "M.insert 0 3 3", "M.insert 0 2 4", "M.inserthint 0 0 0 5", "M.inserthint 0 1 2 6", "M.insertref 0 4 0", "M.insertref 0 2 0",
+    "M": ["M.removefront 0", "M.removeback 0", "M.insert 0 2 1", "M.insert 0 1 2", "M.insert 0 3 3", "M.insert 0 2 4", "M.inserthint 0 0 0 5", "M.inserthint 0 1 2 6", "M.insertref 0 4 0", "M.insertref 0 2 0",
           "M.insertmap 0 0", "M.insertmap 0 1", "M.insertmap 1 0", "M.remove 0 2", "M.removeat 0 0", "M.removeat 0 1", "M.set 0 0 7", "M.clear 0",
           "M.assign 0 0", "M.assign 0 1", "M.assign 1 0", "M.copy 1 0", "M.new 0"],
-    "U": ["U.insert 0 2 1", "U.insert 0 1 2", "U.insert 0 2 3", "U.insert 0 3 4", "U.insertref 0 2 0", "U.insertref 0 0 1", "U.removeat 0 0", "U.removeat 0 1",
+    "U": ["U.removefront 0", "U.removeback 0", "U.insert 0 2 1", "U.insert 0 1 2", "U.insert 0 2 3", "U.insert 0 3 4", "U.insertref 0 2 0", "U.insertref 0 0 1", "U.removeat 0 0", "U.removeat 0 1",
           "U.set 0 0 7", "U.clear 0", "U.assign 0 0", "U.assign 0 1", "U.assign 1 0", "U.copy 1 0", "U.copy 0 1", "U.new 0"],
-    "H": ["H.append 0 2 1", "H.append 0 1 2", "H.append 0 2 3", "H.prepend 0 3 4", "H.insert 0 1 4 5", "H.appendref 0 5 0", "H.appendref 0 2 1", "H.remove 0 2",
+    "H": ["H.removefront 0", "H.removeback 0", "H.append 0 2 1", "H.append 0 1 2", "H.append 0 2 3", "H.prepend 0 3 4", "H.insert 0 1 4 5", "H.appendref 0 5 0", "H.appendref 0 2 1", "H.remove 0 2",
           "H.removeat 0 0", "H.removeat 0 1", "H.set 0 0 7", "H.clear 0", "H.swap 0 1", "H.assign 0 0", "H.assign 0 1", "H.assign 1 0", "H.copy 1 0", "H.new 0", "H.newcap 0 1"],
-    "S": ["S.append 0 2", "S.append 0 1", "S.prepend 0 3", "S.insert 0 1 4", "S.appendref 0 0", "S.appendset 0 0", "S.appendset 0 1", "S.appendset 1 0", "S.remove 0 2",
+    "S": ["S.removefront 0", "S.removeback 0", "S.append 0 2", "S.append 0 1", "S.prepend 0 3", "S.insert 0 1 4", "S.appendref 0 0", "S.appendset 0 0", "S.appendset 0 1", "S.appendset 1 0", "S.remove 0 2",
           "S.removeref 0 0", "S.removeset 0 0", "S.removeset 0 1", "S.removeat 0 1", "S.clear 0", "S.swap 0 1", "S.assign 0 0", "S.assign 1 0", "S.copy 1 0", "S.new 0"],
-    "P": ["P.append 0 1", "P.append 0 2", "P.append0 0", "P.remove 0 0", "P.remove 0 1", "P.removeref 0 0", "P.removeref 0 2", "P.clear 0", "P.swap 0 1", "P.append 1 3", "P.new 0"],
-    "Q": ["Q.append 0 2 1", "Q.append 0 1 2", "Q.append 0 2 3", "Q.append 0 3 4", "Q.remove 0 2", "Q.removeat 0 0", "Q.removeref 0 1", "Q.clear 0", "Q.swap 0 1", "Q.append 1 5 5",
+    "P": ["P.removefront 0", "P.removeback 0", "P.append 0 1", "P.append 0 2", "P.append0 0", "P.remove 0 0", "P.remove 0 1", "P.removeref 0 0", "P.removeref 0 2", "P.clear 0", "P.swap 0 1", "P.append 1 3", "P.new 0"],
+    "Q": ["Q.removefront 0", "Q.removeback 0", "Q.append 0 2 1", "Q.append 0 1 2", "Q.append 0 2 3", "Q.append 0 3 4", "Q.remove 0 2", "Q.removeat 0 0", "Q.removeref 0 1", "Q.clear 0", "Q.swap 0 1", "Q.append 1 5 5",
           "Q.new 0", "Q.newcap 0 1"],
 }
 
